@@ -561,6 +561,17 @@ func (ft *FT) calleeCtx(callee *ssa.Function, closure *ssa.MakeClosure, c *ssa.C
 		}
 		vars[n] = SpecVal{T: args[i+k], Typ: p.Type(), Sort: ft.d.sortOf(p.Type())}
 		vars[fmt.Sprintf("arg%d", k)] = vars[n]
+		// pointee(argK): the object behind a pointer that this call site passes as an interface value
+		// (json.Unmarshal(data, &v) and the like); known only where the argument is a boxed pointer
+		if k < len(c.Args) && !c.IsInvoke() && sig.Recv() == nil {
+			if mi, ok := c.Args[k].(*ssa.MakeInterface); ok {
+				if _, isPtr := mi.X.Type().Underlying().(*types.Pointer); isPtr && ft.env[mi.X] != nil {
+					pv := SpecVal{T: ft.val(mi.X), Typ: mi.X.Type(), Sort: ft.d.sortOf(mi.X.Type())}
+					vars["pointee!"+n] = pv
+					vars[fmt.Sprintf("pointee!arg%d", k)] = pv
+				}
+			}
+		}
 	}
 	if ft.dynSelf != nil && callee == nil && !c.IsInvoke() {
 		vars["self"] = *ft.dynSelf
@@ -683,6 +694,26 @@ func (ft *FT) modTarget(ctx *SpecCtx, cl *Clause) (ts []modTarget, all bool, err
 				k := "V!" + o.Pkg().Name() + "." + o.Name()
 				ft.keySort(k, ft.d.sortOf(o.Type()))
 				return []modTarget{{k, ""}}, false, nil
+			case "pointee":
+				v, ok := ce.Args[0].(*ast.Ident)
+				if !ok {
+					return nil, false, fmt.Errorf("pointee() takes a parameter name")
+				}
+				pv, ok := ctx.vars["pointee!"+v.Name]
+				if !ok {
+					// not a boxed pointer at this call site: nothing is known about what is written
+					return nil, true, nil
+				}
+				elem := deref(pv.Typ)
+				if stt, ok := elem.Underlying().(*types.Struct); ok && !isOpaqueInt(elem) {
+					for i := 0; i < stt.NumFields(); i++ {
+						k := fieldKey(elem, stt.Field(i))
+						ft.keySort(k, arraySort("Int", ft.d.sortOf(stt.Field(i).Type())))
+						ts = append(ts, modTarget{k, pv.T})
+					}
+					return ts, false, nil
+				}
+				return []modTarget{{ft.cellKey(elem), pv.T}}, false, nil
 			case "ghost":
 				v := ce.Args[0].(*ast.Ident)
 				sf, ptypes, rtype := ctx.ghostByName(v.Name)
@@ -1174,6 +1205,7 @@ func (ft *FT) appendOp(st *State, guard Term, c *ssa.CallCommon, args []Term, po
 		}
 	}
 	E := ft.get(st, k)
+	at := ft.atFun(k)
 	newLen := app("+", app("sl-len", s), tlen)
 	fits := app("<=", newLen, app("sl-cap", s))
 	// in-place variant
@@ -1188,7 +1220,7 @@ func (ft *FT) appendOp(st *State, guard Term, c *ssa.CallCommon, args []Term, po
 		rowN := ft.fresh("approw", arraySort("Int", es))
 		ft.assume("true", forall([][2]string{{"i", "Int"}}, eq(app("select", rowN, "i"),
 			ite(and(app("<=", app("+", app("sl-off", s), app("sl-len", s)), "i"), app("<", "i", app("+", app("sl-off", s), newLen))),
-				sel(E, app("sl-base", t), app("+", app("sl-off", t), app("-", "i", app("+", app("sl-off", s), app("sl-len", s))))),
+				app(at, E, t, app("-", "i", app("+", app("sl-off", s), app("sl-len", s)))),
 				sel(E, app("sl-base", s), "i")))))
 		inplace = app("store", E, app("sl-base", s), rowN)
 	}
@@ -1202,8 +1234,8 @@ func (ft *FT) appendOp(st *State, guard Term, c *ssa.CallCommon, args []Term, po
 		}
 	} else {
 		ft.assume("true", forall([][2]string{{"i", "Int"}}, "(! "+and(
-			implies(and(app("<=", "0", "i"), app("<", "i", app("sl-len", s))), eq(app("select", arr, "i"), sel(E, app("sl-base", s), app("+", app("sl-off", s), "i")))),
-			implies(and(app("<=", app("sl-len", s), "i"), app("<", "i", newLen)), eq(app("select", arr, "i"), sel(E, app("sl-base", t), app("+", app("sl-off", t), app("-", "i", app("sl-len", s)))))))+" :pattern ((select "+arr+" i)))"))
+			implies(and(app("<=", "0", "i"), app("<", "i", app("sl-len", s))), eq(app("select", arr, "i"), app(at, E, s, "i"))),
+			implies(and(app("<=", app("sl-len", s), "i"), app("<", "i", newLen)), eq(app("select", arr, "i"), app(at, E, t, app("-", "i", app("sl-len", s))))))+" :pattern ((select "+arr+" i)))"))
 	}
 	realloc := app("store", E, r, arr)
 	cp := ft.fresh("appcap", "Int")
